@@ -8,7 +8,7 @@ package codon
 // verif:bound C07 round-trip clause: default tables 1, 2, 11, 27, 31 (quick) / all 25 (thorough), proteins of 1..2 letters over the table's own letters, every value of every rand.Intn draw
 // verif:bound C07 no-crash clause: proteins of 1..2 bytes over all 128 ASCII values on tables 1 and 11: error or a correct result, never a panic
 // verif:bound C07 threshold clause: one amino acid with 2 (quick) / 3 (thorough) synonymous codons, symbolic weights 0..15 (quick) / 0..63 (thorough): every emitted codon has 10*w > sum(w) and w > 0; an amino acid whose synonyms all have weight 0 is rejected with an error
-// verif:bound C07 random-protein clause: random.ProteinSequence of length 3 (quick) / 3..4 (thorough) for every value of its rand.Intn draws, optimised under tables 1, 11 (quick) / 1, 2, 11, 27, 31 (thorough)
+// verif:bound C07 random-protein clause: random.ProteinSequence of length 3 (quick) / 3..4 (thorough) for every value of its rand.Intn draws, optimised under tables 1, 11 (quick) / 1, 2, 11, 27, 31 (thorough; length 4 under tables 1 and 27 only); tables without a '*' letter (27, 31) must reject the generator's trailing '*'
 // verif:assume C07 math/rand.Intn(n) returns an arbitrary value in [0,n) and panics for n <= 0; rand.Seed and the clock have no effect
 // verif:bound C07 exact threshold clause: 2 synonyms with weights enumerated 0..20 (thorough: second weight also in multiples of 9), 3 synonyms 0..6 (quick) / 0..12 (thorough): real float64 arithmetic, all rand.Intn draws symbolic
 // verif:assume C07 threshold clause: float64 division and comparison in chooser() are abstracted to real arithmetic (rounding is outside the claim)
@@ -184,6 +184,9 @@ func Harness_C07_RandomProtein() {
 	id := 1
 	if vTier(0, 1) == 1 {
 		id = []int{1, 2, 11, 27, 31}[vChoice(5)]
+		if length == 4 && id != 1 && id != 27 {
+			vAssume(false) // length 4 under tables 1 and 27 only
+		}
 	} else {
 		id = []int{1, 11}[vChoice(2)]
 	}
@@ -192,7 +195,16 @@ func Harness_C07_RandomProtein() {
 	var err2 error
 	panicked := vPanics(func() { dna, err2 = Optimize(p, table) })
 	vAssert(!panicked, "generated-protein-optimises-without-panic")
-	vAssert(err2 == nil, "generated-protein-is-encodable")
+	// the generator ends every protein with '*'; tables 27, 28 and 31 have no '*' amino acid (their
+	// stop codons are context dependent), so there the protein holds a residue the table cannot
+	// encode and an error is the required answer
+	hasStop := false
+	for _, aa := range table.AminoAcids {
+		if aa.Letter == "*" {
+			hasStop = true
+		}
+	}
+	vAssert((err2 == nil) == hasStop, "generated-protein-is-encodable-iff-the-table-has-a-stop-letter")
 	if !panicked && err2 == nil {
 		back, _ := Translate(dna, table)
 		vAssert(back == p, "translates-back-to-the-protein")
